@@ -30,15 +30,18 @@
 (*                       `case` only when its key is a numeric 2xx;        *)
 (*      DeclaredOutcome  response_handler_generator.py:457-489 - one       *)
 (*                       `case <code>:` per numeric key; 2xx returns, every*)
-(*                       other code raises the alias class                 *)
-(*                       `<Alias>(response=response)`; aliases exist only  *)
+(*                       4xx/5xx code raises the alias class               *)
+(*                       `<Alias>(response=response)`, a 1xx/3xx code the  *)
+(*                       base HTTPError with status and response; aliases  *)
+(*                       exist only                                        *)
 (*                       for 4xx (base ClientError) and 5xx (base          *)
 (*                       ServerError) (exception_visitor.py:44-57), their  *)
 (*                       __init__ passes status_code=response.status_code  *)
 (*                       and response=response to HTTPError;               *)
-(*      Importable       the endpoints module imports the alias of EVERY   *)
-(*                       non-2xx numeric key from <core> (line 488); for a *)
-(*                       1xx/3xx key that name does not exist;             *)
+(*      Importable       TRUE since 5b87475: a declared 1xx/3xx key raises *)
+(*                       the base HTTPError(response=, message=,           *)
+(*                       status_code=) instead of importing an alias that  *)
+(*                       does not exist (aliases: 4xx/5xx only);           *)
 (*      RangeHit         "4XX".isdigit() is False: NO case is emitted for a*)
 (*                       range key (line 458), the key is silently ignored;*)
 (*      DefaultOutcome   lines 494-505 - `case _:` of a declared default:  *)
@@ -170,7 +173,10 @@ Primary(d, first) ==
 \* strategy.return_type != "None"
 ReturnsValue(d, first) == Primary(d, first).content
 
-Importable(v, d) == v = "fixed" \/ \A c \in Codes(d) : Is2xx(c) \/ Is4xx(c) \/ Is5xx(c)
+\* since /repo 5b87475 a declared 1xx/3xx key no longer imports a non-existent alias (it raises the base HTTPError, see
+\* DeclaredOutcome / ByRange): every package of the family can be imported.  (Before: v = "fixed" \/ every numeric key is
+\* 2xx, 4xx or 5xx.)
+Importable(v, d) == TRUE
 
 \* the bundled transport honours "raise for status < 200 or >= 300"; a pass-through transport never raises
 TransportRaises(t, s) == t = "bundled" /\ ~Is2xx(s)
@@ -186,8 +192,8 @@ PrimaryOutcome(p, b) == IF p.content THEN Parsed(b) ELSE Return
 
 DeclaredHit(d, s)     == s \in Codes(d)
 MemberOf(d, s)        == CHOOSE m \in CodeMembers(d) : m.code = s
-\* `case <code>:` of a non-primary response: a 2xx key returns (None without content), ANY other key raises its alias
-\* - whether or not the response declares a body
+\* `case <code>:` of a non-primary response: a 2xx key returns (None without content), a 4xx/5xx key raises its alias
+\* (ClientError / ServerError subclass), a 1xx/3xx key the base HTTPError - whether or not the response declares a body
 DeclaredOutcome(v, d, s, b) ==
   IF Is2xx(s) THEN (IF MemberOf(d, s).content THEN Parsed(b) ELSE Return) ELSE Raise(ByRange(s), s, TRUE)
 
